@@ -144,20 +144,21 @@ class CFG:
             exc_copy = [copy.deepcopy(x) for x in s.finalbody]
             ee = self._seq(exc_copy, [(None, fin["exc_start"])], loop, handlers, finals, (s, "finalbody", None))
             for lbl, n in ee:
-                self._edge(n, self.raise_exit, "reraise")
+                # keep a branch label (True/False) so that path conditions stay visible to queries
+                self._edge(n, self.raise_exit, lbl if lbl is not None else "reraise")
                 for h in handlers:
-                    self._edge(n, h, "exc")
+                    self._edge(n, h, lbl if lbl is not None else "exc")
                 if finals:
-                    self._edge(n, finals[-1]["exc_start"], "exc")
+                    self._edge(n, finals[-1]["exc_start"], lbl if lbl is not None else "exc")
             if "return" in fin["used"]:
                 ret_copy = [copy.deepcopy(x) for x in s.finalbody]
                 re_ = self._seq(ret_copy, [(None, fin["ret_start"])], loop, handlers, finals, (s, "finalbody", None))
                 for lbl, n in re_:
                     if finals:
-                        self._edge(n, finals[-1]["ret_start"], "return")
+                        self._edge(n, finals[-1]["ret_start"], lbl if lbl is not None else "return")
                         finals[-1]["used"].add("return")
                     else:
-                        self._edge(n, self.exit, "return")
+                        self._edge(n, self.exit, lbl if lbl is not None else "return")
             return out
         if isinstance(s, ast.Match):
             out = []
